@@ -7,15 +7,15 @@ T = {
  'C01': ('machine-checked proof in Coq (axes of the engine model = XPath axis relations, all 12, sound and complete; path composition) + correspondence check model vs /repo',
          'Theorems: every step function of the model (12 axes, both -or-self variants, descendant-over-descendant) selects exactly the nodes of the XPath axis relation that pass the node test, for all documents and all context nodes; the //a//b optimisation preserves the node set. The model is tied to /repo by running both on every 1-/2-step path, axis triples and random 3-5-step paths over small-scope and random documents from every context node (set of result nodes).',
          'hash collision freedom of FNV-64a on the document (ancestor de-duplication) is a hypothesis; parser/builder are tied by the correspondence (AST and query dumps), the builder-shape theorem is partial; navigators other than the harness navigator are outside'),
- 'C02': ('machine-checked proof in Coq (filter keeps exactly the candidates whose predicate value is true; verdict independent of the candidate order) + correspondence check',
+ 'C02': ('machine-checked proof in Coq (filter keeps exactly the candidates whose predicate value is true, verdict independent of the candidate order; the builder compiles boolean predicates to such filters) + correspondence check',
          'Theorems about the model\'s filter query for predicates of any nesting; correspondence over generated predicate expressions (all axes, depth <= 2/3) on documents where candidates share ancestors/siblings.',
-         'builder-level translation of predicates is tied by correspondence only'),
- 'C03': ('machine-checked proof in Coq (child-step position counters = proximity positions; (P)[n] = n-th node) + correspondence check',
+         'the fi_self=false branch of the merge rewrite (positional predicate on a primary expression that is not the first input) is excluded from the builder theorem; see DESIGN 9.3'),
+ 'C03': ('machine-checked proof in Coq (child-step position counters = proximity positions; (P)[n] = n-th node; the merge rewrite of the builder preserves the node sequence) + correspondence check',
          'Theorems: items of a child step carry their 1-based index among the matching children of the same parent; position()/last() by sibling counting equal index/size; numeric predicate selects that index; group filter selects the n-th node of the sequence. Correspondence exhaustive over the predicate forms x n <= 4 on fan-out documents.',
-         'the merge rewrite of the builder is tied by correspondence only'),
- 'C04': ('machine-checked proof in Coq (history independence of the API state machine that evaluates clones) + correspondence check over histories with a state-dirtying hook',
+         'positional predicates on the ancestor axis are excluded from the builder theorem (outside C03)'),
+ 'C04': ('machine-checked proof in Coq (history independence of the API state machine that evaluates clones; at cursor level Clone forgets and Evaluate rewinds any state) + regenerated effect table + correspondence check over histories with a state-dirtying hook',
          'Theorem: for any history of Select/Evaluate/Dirty operations the result equals the fresh result. Correspondence: one *Expr, 1-8 prior calls with partial consumption and VerifDirty, then compared with a fresh Compile and with the model.',
-         'that every Go Clone method drops state and deep-copies is checked dynamically (histories) and by the effect-table translator, not proved'),
+         'that every Go Clone method drops state and deep-copies is proved for the cursor-level model of 8 query types (Model1), for the others it is the effect-table translator plus histories'),
  'C05': ('machine-checked proof in Coq (ownership discipline => race freedom and sequential results, for all schedules) + regenerated effect table (go/ast translator) + race-detector runs',
          'PARTIAL by nature: the theorem is about the discipline; the translator that extracts the effect table from the sources is syntactic; the Go memory model, scheduler and detector completeness are outside the model. 8 goroutines x corpus (every query type and function) under -race, results compared with sequential ones.',
          'translator (name-based), Go race detector, Go memory model'),
@@ -28,33 +28,33 @@ T = {
  'C08': ('machine-checked proof in Coq (NaN/infinity propagation, plain-decimal number rendering, number() of non-numeric strings) + correspondence check incl. decimal<->binary64 against strconv',
          'Arithmetic trees depth <= 4 (6) compared bit-for-bit; 1500+1500 (x20) conversions compared with strconv through the engine.',
          'correct rounding of the decimal conversion and of SpecFloat operations is validated/assumed (SpecFloat = definition of IEEE 754 binary64)'),
- 'C09': ('machine-checked proof in Coq (string functions of the model = declarative specifications for all byte strings) + correspondence check',
+ 'C09': ('machine-checked proof in Coq (string functions of the model = declarative specifications for all byte strings; substring = positions round(start) <= p < round(start)+round(length) for finite doubles) + correspondence check',
          'Theorems: contains/starts-with/ends-with/index/substring-before/after/translate/normalize-space/lower-case/join/substring slice; correspondence: nested calls depth <= 4 and an exhaustive substring sweep.',
-         'the float front-end of substring() is validated by the exhaustive sweep, proved only structurally (never fails)'),
- 'C10': ('machine-checked proof in Coq (every binary level of the parser is left-associative; parser termination) + correspondence check on parse trees (hook), whitespace variants and abbreviations',
-         'Parse trees of implementation vs model for all operator chains of length <= 3 (4) over all operator tuples plus random longer ones; whitespace placements; abbreviated vs expanded forms (sequence equality).',
-         'the full print/parse round trip is not proved (partial): precedence order is tied by the exhaustive chains'),
+         'substring positions proved for canonical finite doubles below 2^51; round() is floor(x+0.5) in double arithmetic (differs from exact rounding at 0.49999999999999994)'),
+ 'C10': ('machine-checked proof in Coq (print/parse round trip through the real scanner and parser for the grammar written as a datatype: precedence, left associativity, any white space, abbreviations = expansions; parser termination) + correspondence check on parse trees (hook), whitespace variants and abbreviations',
+         'Theorems: parse (print e) = the grammar\'s parse tree for expressions of any size (operators of all nine tiers, paths with all axes and node tests, predicates, function calls, variables, parentheses, filter expressions), for every admissible white-space layout; abbreviated and expanded spellings parse to the same tree up to the unused prop field. Correspondence: parse trees of implementation vs model for all operator chains of length <= 3 (4) over all operator tuples incl. prefixed names; whitespace placements; abbreviated vs expanded forms (sequence equality).',
+         'not covered by the round-trip syntax (correspondence only): qualified names p:a, decimals, double-quoted strings, a bare / operand, the step form (a, b), non-ASCII text'),
  'C11': ('machine-checked proof in Coq (identity key injective; union = set union, NoDup) + correspondence check (result multisets, 64-bit codes through the hook)',
          'Theorems for all well-formed documents and arbitrary node-set operands; correspondence on adversarial-name documents, all nodes\' codes compared exactly.',
          'FNV-64a collision freedom on the document is an explicit hypothesis; documents with duplicate attribute names on one element are outside (XML well-formedness)'),
- 'C12': ('machine-checked proof in Coq (flat paths and single descendant steps are strictly sorted in document order, hence duplicate-free) + correspondence check on exact sequences and the iterator protocol',
+ 'C12': ('machine-checked proof in Coq (flat paths and single descendant steps strictly sorted in document order; count = length, reverse, Evaluate = Select; cursor-level iterator machines refine the list model: exhaustion stable, Evaluate rewinds, context preserved) + correspondence check on exact sequences and the iterator protocol',
          'Theorems for all documents/contexts/flat paths of any length; correspondence: exact sequence, Evaluate = Select, count, reverse, 3 extra MoveNext calls after exhaustion.',
-         'the iterator protocol itself is checked dynamically (list-level model makes it true by construction)'),
- 'C13': ('machine-checked proof in Coq (context-free queries ignore the start node; wrappers preserve the node set / truth value) + correspondence check incl. metamorphic groups on the implementation',
+         'iterator protocol proved at cursor level for 8 query types (Model1/Iter.v refines the list level); for the others it is checked dynamically'),
+ 'C13': ('machine-checked proof in Coq (context-free queries ignore the start node; addr(n)/p from anywhere = p at n; wrappers preserve the node set / truth value) + correspondence check incl. metamorphic groups on the implementation',
          'Theorems at query level; correspondence: every node as start node, addr(n)/p composition, P[true()], (P), P|P, not(not(P)).',
-         'builder-level facts (what the wrappers compile to) are tied by correspondence'),
+         'builder-level facts (what the wrappers compile to) are tied by correspondence; composition needs child indices < 2^53'),
  'C14': ('machine-checked proof in Coq (name-test decision table; unbound prefix is an error; name functions) + correspondence check over namespace maps and both navigator variants',
          'Theorems for all nodes/tests/maps; correspondence over maps x navigators x 12 axes.',
          ''),
  'C15': ('machine-checked proof in Coq (the model never yields a runtime-error outcome; result types, with the round() refutation) + correspondence check on token-level expressions',
          'Theorem: sel/eval never Crash for ALL queries; documented result types proved except round() (refuted: known finding). Correspondence: every function x arity 0..4 x argument kinds, token soup; outcome classes; crash/budget/undocumented type on the implementation is a violation.',
          'the model\'s Crash-freedom transfers to the code only through the correspondence (outcome classes compared on every generated case)'),
- 'C16': ('machine-checked proof in Coq (cache invariants under arbitrary interleavings: exact, bounded, failed loads not stored, get = load) + correspondence check (sequential histories through the hook), race-detector runs, regexp oracle',
+ 'C16': ('machine-checked proof in Coq (cache invariants under arbitrary interleavings: exact, bounded, failed loads not stored, get = load; $N rewriting of replace() = XPath reading under a model of Go template expansion) + correspondence check (sequential histories through the hook), race-detector runs, regexp oracles',
          'Theorems for any key/value type, load function, capacity, thread count and schedule; sequential histories exhaustive for capacities 0..3 x keys x length <= 4 (6) and random for 0..5; matches/replace compared with Go regexp directly.',
-         'Go regexp is a parameter of the model (Go-side oracle); locks are modelled as atomic sections'),
- 'C17': ('machine-checked proof in Coq (unknown functions/axes, bad arity, variables are build errors; parser consumes the whole input) + correspondence check over damage classes x positions',
+         'Go regexp is a parameter of the model (Go-side oracle: direct regexp calls and an independent implementation of the XPath replacement reading); locks are modelled as atomic sections; Go template expansion is modelled from its documentation'),
+ 'C17': ('machine-checked proof in Coq (the parser fails wherever an operand/closer is required and missing: after operators, slashes, brackets, parentheses, commas, @, axis::, unclosed literals, trailing input; unknown functions/axes, bad arity, variables are build errors) + correspondence check over damage classes x positions',
          'Every damaged variant must be rejected by the implementation and the model must agree.',
-         'the grammar-level rejection theorems are partial: truncation classes are decided by the correspondence'),
+         'rejection is proved per construct relative to the parser state at the damage; the whole-string statement per damage class is decided by the correspondence'),
 }
 
 checks = []
